@@ -352,6 +352,22 @@ def setHashesZ {H : Type} [DecidableEq H] (ops : HashOps H) (cfg : Cfg) (pick : 
       if o = .badHash ∨ o = .notEnough ∨ (o = .indexError ∧ cfg.catchIndex) then (.err o, rollback st.rm st.t)
       else (.err o, st.t)
 
+/-- what an honest provider answers to `needed_hashes`: the genuine tree's value for each requested node
+    (`dict((i, T[i]) for i in needed)`) -/
+def genuineBatch {H : Type} (T : Tree H) (l : List Nat) : List (Nat × H) :=
+  l.filterMap (fun i => (get T i).map (fun v => (i, v)))
+
+/-- the download step for leaf `leafnum`: ask `needed_hashes(leafnum)`, receive the genuine values and the
+    genuine leaf, call `set_hashes`.  `none` = `needed_hashes` raised IndexError / the genuine tree has no such
+    leaf. -/
+def validateLeaf {H : Type} [DecidableEq H] (ops : HashOps H) (cfg : Cfg) (pick : List Nat → Nat)
+    (first : Nat) (t T : Tree H) (leafnum : Nat) : Option (List (Nat × H) × Outcome × Tree H) :=
+  match neededHashes? t first leafnum false, get T (first + leafnum) with
+  | some l, some v =>
+    let r := setHashes ops cfg pick first t (genuineBatch T l) [(leafnum, v)]
+    some (genuineBatch T l, r.1, r.2)
+  | _, _ => none
+
 /-! ## specification vocabulary (used by the property theorems of C35 and the integrity chains) -/
 
 /-- `T` is a fully populated Merkle tree: odd length, every node present, every internal node the pair hash
@@ -368,6 +384,11 @@ def Agree {H : Type} (t T : Tree H) : Prop := ∀ j h, get t j = some h → get 
     `set_hashes` calls from an empty tree has this shape) -/
 def Closed {H : Type} (t : Tree H) : Prop :=
   ∀ i, i ≠ 0 → get t i ≠ none → get t (sibling i) ≠ none → get t (parent i) ≠ none
+
+/-- every known node other than the root has a known sibling (nothing is accepted without its sibling; every
+    tree produced by successful `set_hashes` calls from an empty tree has this shape) -/
+def SibClosed {H : Type} (t : Tree H) : Prop :=
+  ∀ i, i ≠ 0 → get t i ≠ none → get t (sibling i) ≠ none
 
 /-- collision-freeness of the pair hash (the cryptographic hypothesis; holds in `symOps` by construction) -/
 def PairInjective {H : Type} (ops : HashOps H) : Prop :=
